@@ -630,6 +630,7 @@ func (op *RenderOperator) Span() Span {
 func Walk(n Node, visit func(n Node) bool) {
 	stack := []Node{n}
 	for len(stack) > 0 {
+		verifSite(80)
 		curr := stack[len(stack)-1]
 		stack = stack[:len(stack)-1]
 		switch n := curr.(type) {
